@@ -40,6 +40,7 @@ def cases(tier, seed):
     for si in range(3):
         for sp in range(4 if tier == "quick" else 12):
             out.append({"kind": "create", "si": si, "sp": sp})
+            out.append({"kind": "create", "si": si, "sp": sp, "single": True})
     return out
 
 
@@ -190,10 +191,13 @@ def run_case(case):
         spec = S.mk(n, obj, rows, vk)
         # rescale the data so that small magnitudes occur
         pt = [[0.625, -1.25, 0.75], [2.0 ** -12, 3.0 * 2.0 ** -9, -2.0 ** -7], [1e3, -2e-4, 0.03]][case["sp"] // 4 % 3][:n]
+        if case.get("single"):
+            # values just below a power of two: rounding the scaling point to float32 first would change their exponent
+            pt = [1.99999999, -0.99999999, 0.0312499999][:n]
         typ = ["Nominal", "GradJac", "KKT"][case["si"]]
         sc_spec = {"type": typ, "at": pt, "dual": [0.5, -1.5][:m]}
         prob = UserProblem(spec)
-        params = make_params({}, sc_spec)
+        params = make_params({"params": {"precision": "Single"}} if case.get("single") else {}, sc_spec)
         stats = {"inputs": 1}
         at = {"spec": spec["tag"], "type": typ, "at": pt}
         F = Funcs(spec)
@@ -231,7 +235,7 @@ def run_case(case):
                     cs = float(np.sum(np.abs(K[:, j])))
                     if not (1.0 <= cs < 4.0):
                         bad("kkt_column_sum", f"column {j} sum {cs!r}", at)
-        key = f"create|{typ}|{case['sp']}"
+        key = f"create|{typ}|{case['sp']}|{case.get('single')}"
     seen, vs = set(), []
     for v in viol:
         if v["sig"] not in seen:
